@@ -1381,7 +1381,7 @@ class C11(Base):
                 r["pos"] = r["pos"][:110]
                 r["length"] = r["pos"][-1] + 1400.0
         n = rng.randint(3, 6)
-        mix = [("noisy", 5), ("chimeric", 2), ("indel", 2)]
+        mix = [("noisy", 4), ("chimeric", 2), ("indel", 4)]
         ids = W.distinct_ids(rng, 2 * n, 1, 5000)
         rng.shuffle(ids)
         qs, truths = W.make_queries(rng, refs, n, mix, ids=ids[:n], lattice=W.LATTICE)
@@ -1395,6 +1395,40 @@ class C11(Base):
             rel = [tr["pos"][-1] - p for p in reversed(tr["pos"])]
             refs.append(tr)
             qs[-1] = {"id": qs[-1]["id"], "length": rel[-1] + 1.0, "pos": rel, "family": "tight"}
+        if rng.random() < 0.15:
+            # one contig holding a block and, far away, its exact mirror image (an inverted repeat): a query cut from the
+            # block fits '+' at one place and '-' at the other with exactly equal confidence
+            step = W.LATTICE
+            kb = rng.randint(14, 22)
+            gaps = [(2 + min(30, int(rng.expovariate(1.0 / 5)))) * step for _ in range(kb - 1)]
+
+            def filler(p, cnt):
+                out = []
+                for _ in range(cnt):
+                    out.append(p)
+                    p += (2 + min(30, int(rng.expovariate(1.0 / 5)))) * step
+                return out, p
+            pos, p = filler(rng.randint(1, 4) * step, rng.randint(8, 16))
+            b0 = len(pos)
+            pos.append(p)
+            for g in gaps:
+                p += g
+                pos.append(p)
+            f2, p = filler(p + rng.randint(40, 120) * step, rng.randint(10, 20))
+            pos += f2
+            pos.append(p)
+            for g in reversed(gaps):
+                p += g
+                pos.append(p)
+            f3, p = filler(p + rng.randint(3, 20) * step, rng.randint(8, 16))
+            pos += f3
+            ir = {"id": rng.randint(1, 300), "length": float(pos[-1] + 2 * step), "pos": [float(x) for x in pos]}
+            refs = [ir]
+            qs = []
+            for j in range(n):
+                a_ = rng.randint(0, 2)
+                w_ = pos[b0 + a_:b0 + kb - a_]
+                qs.append({"id": ids[j], "length": float(w_[-1] - w_[0] + 1), "pos": [float(x - w_[0]) for x in w_], "family": "inverted-repeat"})
         queries, twins = [], {}
         for q, tid in zip(qs, ids[n:]):
             last = q["pos"][-1]
@@ -1405,6 +1439,8 @@ class C11(Base):
         queries.sort(key=lambda m: m["id"])
         cfg = W.swarm_config(rng, lattice=True, aggressive=False)
         cfg["-d"] = rng.choice([300, 500, 600, 650])
+        if rng.random() < 0.25:
+            cfg["-ss"] = 1                    # the alternative sequentiality score has its own strand handling
         case = {"filesets": {"base": {"refs": [W.strip(r) for r in refs], "queries": queries,
                                       "r_layout": W.layout(rng, len(refs)), "q_layout": W.layout(rng, len(queries))}},
                 "config": cfg, "twins": twins, "meta": {"ref_family": "lattice"}}
